@@ -73,6 +73,37 @@ func workScenario(mods []modsim.Module, kind, pkind, mode string, position int, 
 	return sc
 }
 
+// stopPanicsWhileWorkOutlivesTheStop: the stop routine of the last module panics and one of its workers does not
+// return within the (short) stop timeout. The module system gives up waiting, as documented; the panic of the stop
+// routine must still come back as the error of Shutdown and be reported. (C05 says nothing about work that exceeds
+// the stop timeout, so its clauses are not applied to such a scenario.)
+func stopPanicsWhileWorkOutlivesTheStop(pk string, stopDurUS int) *modsim.Scenario {
+	sc := &modsim.Scenario{StartTimeoutMS: 20000, StopTimeoutMS: 300}
+	sc.Modules = []modsim.Module{{Name: "m0"}, {Name: "m1", Deps: []string{"m0"}}}
+	x := &sc.Modules[1]
+	x.Stop = modsim.Callback{Fault: "panic", Panic: pk, DurUS: stopDurUS}
+	x.Work = []modsim.Work{{ID: 1, Kind: "startworker", Mode: "waitctx", DelayUS: 700000}}
+	sc.Steps = []modsim.Step{{Op: "start"}, {Op: "launch", Mods: []string{"m0", "m1"}}, {Op: "shutdown"}}
+	return sc
+}
+
+func judgeC06Only(t interface {
+	Fatalf(string, ...any)
+}, sc *modsim.Scenario) *modsim.Result {
+	res, err := modsim.RunScenario(sc, 600*time.Second)
+	b, _ := json.Marshal(sc)
+	if errors.Is(err, modsim.ErrChildTimeout) {
+		t.Fatalf("C06-hang: child did not terminate within 600 s\nscenario: %s", b)
+	}
+	if err != nil {
+		t.Fatalf("C06-process-died: the process did not survive: %v\nscenario: %s", err, b)
+	}
+	if v := modsim.CheckC06(sc, res); v != nil {
+		t.Fatalf("%s\nscenario: %s\nevents:%s", v.Error(), b, modsim.RenderEvents(res.Events, 120))
+	}
+	return res
+}
+
 func judge(t interface {
 	Fatalf(string, ...any)
 }, sc *modsim.Scenario) *modsim.Result {
@@ -139,6 +170,14 @@ func TestExhaustiveWorkPanics(t *testing.T) {
 			}
 		}
 	}
+	for _, kind := range panicWorkKinds {
+		mods := []modsim.Module{{Name: "m0"}, {Name: "m1", Deps: []string{"m0"}}}
+		sc := workScenario(mods, kind, "string", "finish", 0, nil)
+		sc.NoReports = true
+		stats.Class("no_report_channel_installed")
+		judge(t, sc)
+		n++
+	}
 	for _, pk := range modsim.PanicKinds {
 		for _, reenable := range []bool{false, true} {
 			mods := []modsim.Module{{Name: "m0"}, {Name: "m1", Deps: []string{"m0"}}}
@@ -155,6 +194,11 @@ func TestExhaustiveWorkPanics(t *testing.T) {
 // TestExhaustiveLifecyclePanics enumerates phase x panic value for a module inside a small graph.
 func TestExhaustiveLifecyclePanics(t *testing.T) {
 	n := int64(0)
+	for _, pk := range []string{"string", "error", "nil", "typednil"} {
+		judgeC06Only(t, stopPanicsWhileWorkOutlivesTheStop(pk, 0))
+		stats.Class("stop_panics_while_work_outlives_the_stop_timeout")
+		n++
+	}
 	for _, phase := range []string{"prep", "start", "stop"} {
 		for _, pk := range modsim.PanicKinds {
 			for _, where := range []int{0, 1, 2} {
@@ -218,6 +262,11 @@ func TestPropWorkPanics(t *testing.T) {
 			}
 		}
 		sc.Delays = modsim.GenDelays(t, sc.Modules, 2)
+		if rapid.IntRange(0, 4).Draw(t, "noreports") == 0 {
+			// nobody listens for reports (no channel, stderr off): everything else stays as it is
+			sc.NoReports = true
+			stats.Class("no_report_channel_installed")
+		}
 		if kind == "service" && mode == "finish" && rapid.Bool().Draw(t, "slowbackoff") {
 			// the panicked service worker sits in a long restart back-off when the module is stopped: "the module can still
 			// be stopped" (promptly, CheckC05); it is not run again before that, so the restart clause does not apply
@@ -287,6 +336,13 @@ func TestPropLifecyclePanics(t *testing.T) {
 			}
 			sc.Steps = []modsim.Step{{Op: "start"}, {Op: "enable", Mods: []string{x.Name}}, {Op: "manage"}, {Op: "manage"}, {Op: "shutdown"}}
 			stats.Class("start_panics_after_launching_work_then_retried")
+		}
+		if rapid.IntRange(0, 9).Draw(t, "stoptimeout") == 0 {
+			sc = stopPanicsWhileWorkOutlivesTheStop(rapid.SampledFrom(modsim.PanicKinds).Draw(t, "tpanic"), rapid.SampledFrom([]int{0, 2000, 100000}).Draw(t, "tstopdur"))
+			judgeC06Only(t, sc)
+			stats.Class("stop_panics_while_work_outlives_the_stop_timeout")
+			stats.Case(sc.Fingerprint(), true, "lifecycle_stop_timeout")
+			return
 		}
 		sc.Delays = modsim.GenDelays(t, sc.Modules, 3)
 		res := judge(t, sc)
